@@ -22,11 +22,11 @@ def check(rep, tier, seed):
     d = os.path.join(WORK, "c12")
     os.makedirs(d, exist_ok=True)
     nsets = 6 if tier == "quick" else 40
-    for k in range(nsets):
+    for k in range(nsets + 2):
         cols, recs = random_callset(rng, nsamples=rng.randrange(1, 11), nrecords=rng.randrange(0, 61), p_skip=rng.choice([0.0, 0.15]))
-        if k == 1:
+        if k == nsets:
             recs = []                    # a call set without any record (header only): an all-zero spectrum from every container
-        elif k == 2:
+        elif k == nsets + 1:
             recs = recs[:1]              # ... and with a single one
         recs_nd = [[g if g != "." else "./." for g in r] for r in recs]       # noodles' BCF writer cannot encode a bare '.'
         sm = None if k % 4 == 0 else random_map(rng, cols)
